@@ -730,16 +730,19 @@ def zone_job(zone, job, cases, timeout=600):
     return json.loads(p.stdout)
 
 
-def run_threads(out, stream, module, fn, calls, expected, describe, startups=64, threads=8, rounds=2, spread=True, timeout=300):
+def run_threads(out, stream, module, fn, calls, expected, describe, startups=64, threads=8, rounds=2, spread=True, timeout=300, now=None, zone=None):
     """harness/threadwork.py in `startups` fresh interpreters: `threads` OS threads make `calls` (the first calls of the process, then
     `rounds` more passes, every call twice in a row); every result is compared with `expected` inside the thread that got it"""
     import json, subprocess
     from concurrent.futures import ThreadPoolExecutor
     env = dict(os.environ, PYTHONPATH=lib.REPO_SRC, PYTHONHASHSEED="0")
-    payload = json.dumps({"module": module, "fn": fn, "calls": calls, "expected": expected, "threads": threads, "rounds": rounds, "spread": spread})
+    if zone: env["TZ"] = zone
+    job = {"module": module, "fn": fn, "calls": calls, "expected": expected, "threads": threads, "rounds": rounds, "spread": spread, "now": now}
+    # every other start-up runs with a thread switch offered after EVERY line of the library's code (and fewer repetitions: it is slow)
+    payloads = [json.dumps(job), json.dumps(dict(job, yield_lines=True, rounds=min(rounds, 20)))]
     def one(k):
         try:
-            p = subprocess.run([sys.executable, os.path.join(lib.ROOT, "harness", "threadwork.py")], input=payload, capture_output=True, text=True, timeout=timeout, env=env)
+            p = subprocess.run([sys.executable, os.path.join(lib.ROOT, "harness", "threadwork.py")], input=payloads[k % 2], capture_output=True, text=True, timeout=timeout, env=env)
         except subprocess.TimeoutExpired:
             return {"bad": [{"call": None, "index": 0, "got": "never-returned (%d s)" % timeout, "expected": "an answer", "thread": -1, "round": 0, "repeat": 0}], "done": 0}
         if p.returncode != 0: raise lib.BuildError("thread worker failed: %s" % p.stderr.strip()[-300:])
@@ -751,7 +754,7 @@ def run_threads(out, stream, module, fn, calls, expected, describe, startups=64,
             c = {"call": b["call"], "start_up": k, "thread": b["thread"], "of_threads": threads, "pass": b["round"], "repeat": b["repeat"]}
             if len(out.failing) < 50:
                 out.failing.append({"stream": stream, "describe": describe(b["call"]) + " in thread %d of %d (pass %d of a fresh interpreter)" % (b["thread"], threads, b["round"]),
-                                    "input": c, "impl": lib.clip(b["got"]), "expected": lib.clip(b["expected"])})
+                                    "input": dict(c, switch_offered_after_every_line=bool(k % 2)), "impl": lib.clip(b["got"]), "expected": lib.clip(b["expected"])})
     out.judged += sum(r["done"] for r in res)
 
 
